@@ -120,7 +120,12 @@ func (em *emitter) emitNodes(nodes []ast.Node) {
 				endForLabel := em.fb.newLabel()
 				em.fb.emitGoto(endForLabel)
 				em.rangeLabels = append(em.rangeLabels, forPost)
+				// The body has its own scope: a variable declared in the
+				// body does not hide, in the post statement, a variable
+				// declared in the init statement.
+				em.fb.enterScope()
 				em.emitNodes(node.Body)
+				em.fb.exitScope()
 				em.rangeLabels = em.rangeLabels[:len(em.rangeLabels)-1]
 				em.fb.setLabelAddr(forPost)
 				if node.Post != nil {
@@ -130,10 +135,16 @@ func (em *emitter) emitNodes(nodes []ast.Node) {
 				em.fb.setLabelAddr(endForLabel)
 			} else {
 				forLabel := em.fb.newLabel()
+				forPost := em.fb.newLabel()
 				em.fb.setLabelAddr(forLabel)
 				endForLabel := em.fb.newLabel()
-				em.rangeLabels = append(em.rangeLabels, forLabel)
+				// A continue statement executes the post statement.
+				em.rangeLabels = append(em.rangeLabels, forPost)
+				em.fb.enterScope()
 				em.emitNodes(node.Body)
+				em.fb.exitScope()
+				em.rangeLabels = em.rangeLabels[:len(em.rangeLabels)-1]
+				em.fb.setLabelAddr(forPost)
 				if node.Post != nil {
 					em.emitNodes([]ast.Node{node.Post})
 				}
